@@ -23,7 +23,7 @@
 (* Numbers are small model constants.  Indexes are RANKS in a sorted list  *)
 (* of real uint64 values chosen by the harness (order preserving, logged   *)
 (* in the trace), payloads / extensions / times / terms / keys / values    *)
-(* are ids into fixed tables of the Go harness (tables.go).                *)
+(* are ids into fixed tables of the Go harness (tables_test.go).           *)
 (*                                                                         *)
 (* Domain assumptions (stated in the evidence):                            *)
 (*  A1 index keys < 0x73*2^56 (first key byte < 's'); index 0 is never     *)
@@ -244,6 +244,9 @@ StoreLogProto(p) ==
     /\ Record([op |-> "StoreLogProto", p |-> p])
 
 \* DeleteRange(min, max): every entry with min <= index <= max, nothing else.
+\* min > max is the empty range (finding F16: the unrepaired code panicked inside
+\* goleveldb for such a call once the database had several table files; the
+\* model describes the repaired behaviour).
 DeleteRange(lo, hi) ==
     /\ open
     /\ lo \in Bounds /\ hi \in Bounds
